@@ -21,7 +21,7 @@ func init() {
 	fw.Register(&fw.Property{
 		ID:    "C17",
 		Level: "exploration",
-		Rule: "the whole finite domain executed against the real functions: all 15^3 = 3375 IUPAC codons through MakeCodonDict, Translate(strict and non-strict); the 64 unambiguous codons against an independently encoded NCBI table-1 string; all 32 accepted nucleotide characters through the text and encoded complement, encode/decode tables and the record-level Complement/ReverseComplement methods; plus random sequences for the record-level involutions; every codon whose product is not a stop is also placed as a reference codon of a one-CDS GFF-annotated genome and run through variants (resolvable: the aa record carries that product; unresolvable: refused in strict mode, or answered with every differing position listed); " +
+		Rule: "the whole finite domain executed against the real functions: all 15^3 = 3375 IUPAC codons through MakeCodonDict, Translate(strict and non-strict); the 64 unambiguous codons against an independently encoded NCBI table-1 string; all 32 accepted nucleotide characters, and all 33 792 strings of two and three of them, through the text and encoded complement, encode/decode tables and the record-level Complement/ReverseComplement methods; plus random sequences for the record-level involutions; every codon whose product is not a stop is also placed as a reference codon of a one-CDS GFF-annotated genome and run through variants (resolvable: the aa record carries that product; unresolvable: refused in strict mode, or answered with every differing position listed); " +
 			"distinct non-trivial = distinct codons and characters checked (every one is a distinct case)",
 		Assumptions: []string{"the 64-letter NCBI translation table string and the IUPAC set table in the harness are correct"},
 		Exhaustive:  true,
@@ -236,6 +236,33 @@ func runC17(c *fw.Ctx, idx int) fw.Result {
 		SA := encoding.MakeScoreArray()
 		ESA := encoding.MakeEncodedScoreArray()
 		chars := []byte("ACGTRYSWKMBDHVNacgtrykmswbdhvn-?")
+		// every string of two and of three symbols (a codon is complemented as a string of three):
+		// the complement of a string is the string of its symbols' complements, whatever its length
+		buf := make([]byte, 0, 3)
+		nShort := 0
+		for _, a := range chars {
+			for _, b := range chars {
+				for k := -1; k < len(chars); k++ {
+					buf = append(buf[:0], a, b)
+					if k >= 0 {
+						buf = append(buf, chars[k])
+					}
+					str := string(buf)
+					comp, rc := alphabet.Complement(str), alphabet.ReverseComplement(str)
+					nShort++
+					ok := len(comp) == len(str) && len(rc) == len(str)
+					for i := 0; ok && i < len(str); i++ {
+						ok = comp[i] == c17Comp(str[i]) && rc[len(str)-1-i] == c17Comp(str[i])
+					}
+					if !ok {
+						res.Fail("complement-short-string", fmt.Sprintf("Complement(%q) = %q, ReverseComplement(%q) = %q: not the symbol-wise complement", str, comp, str, rc), nil, nil)
+						break
+					}
+				}
+			}
+		}
+		res.Evals += nShort
+		res.Count("strings_of_two_and_three_symbols_complemented", nShort)
 		for _, ch := range chars {
 			res.Sig("char|" + string(ch))
 			res.Evals += 6
